@@ -1,5 +1,5 @@
 From GM Require Import Base.Prelude Base.Outcome Codec.Packets Codec.Prim Codec.ReasonCodes
-  Codec.ImplDecode Codec.Framing Codec.SpecEncodeS2C Properties.C03.
+  Codec.ImplDecode Codec.Framing Codec.SpecEncodeS2C Codec.StringsNoNul Properties.C03.
 Open Scope N_scope.
 Check C03_chunking_any_body : forall body max_size d a b,
   result_equiv (feed2 body max_size d a b) (decode_bytes_with body max_size d (a ++ b)).
@@ -71,6 +71,17 @@ Check C03_faithful_stream : forall v p order compact bs rest max_size,
   len bs <= effective_max max_size ->
   decode_bytes v max_size decoder_init (bs ++ rest) =
   (let '(d2, ps, r) := decode_bytes v max_size decoder_init rest in (d2, p :: ps, r)).
+Check C03_strings_no_nul : forall v first_byte body p,
+  impl_decode_packet v first_byte body = Ok p -> packet_strings_no_nul p = true.
+Check C03_strings_no_nul_stream : forall v max_size chunks d i,
+  let '(d', ps, r, j) := decode_chunks v max_size d chunks i in
+  Forall (fun p => packet_strings_no_nul p = true) ps.
+Check C03_strings_no_nul_helpers :
+  (forall b s rest, decode_length_prefixed_string b = Ok (s, rest) -> no_null s = true) /\
+  (forall b s rest, decode_optional_length_prefixed_string b None = Ok (Some s, rest) -> no_null s = true) /\
+  (forall b props name value l rest,
+     decode_user_property b props = Ok (Some (l ++ [{| up_name := name; up_value := value |}]), rest) ->
+     no_null name = true /\ no_null value = true).
 Print Assumptions C03_chunking_any_body.
 Print Assumptions C03_chunking.
 Print Assumptions C03_chunking_partition.
@@ -103,3 +114,6 @@ Print Assumptions C03_faithful_disconnect_v5.
 Print Assumptions C03_faithful_suback_v5.
 Print Assumptions C03_faithful_unsuback_v5.
 Print Assumptions C03_faithful_stream.
+Print Assumptions C03_strings_no_nul.
+Print Assumptions C03_strings_no_nul_stream.
+Print Assumptions C03_strings_no_nul_helpers.
